@@ -297,3 +297,57 @@ def desugar_iter_mut(text, log, where):
         text = text[:m.start()] + new + tail[1:]
     if n[0]: log.add('R24', where, '%d loop(s) over iter_mut()' % n[0], 'let v = E; for k in 0..v.len() { let x = &mut v[k]; .. }')
     return text
+
+# R27: HashSet / Vec iterator idioms of dfa.rs::minimize, each mapped to a specified stand-in (spec/minimize.rs); passed as extra rules by unit `minimize` only
+SET_RULES = [
+    ('R27', r'\b(\w+)\.iter\(\)\.cloned\(\)\.collect_vec\(\)', r'vx_cloned_vec(&\1)', 'iter().cloned().collect_vec(): element-wise copy of a Vec<HashSet<_>>'),
+    ('R27', r'\b(\w+)\.drain\(0\.\.1\)\.next\(\)\.unwrap\(\)', r'vx_take_first(&mut \1)', 'drain(0..1).next().unwrap(): removes and returns the first element (requires a non-empty vector)'),
+    ('R27', r'\b(\w+)\.intersection\((&?\w+)\)\.copied\(\)\.collect::<HashSet<State>>\(\)', r'vx_inter(&\1, \2)', 'HashSet::intersection(..).copied().collect(): the set intersection'),
+    ('R27', r'\b(\w+)\.difference\((&?\w+)\)\.copied\(\)\.collect::<HashSet<State>>\(\)', r'vx_diff(&\1, \2)', 'HashSet::difference(..).copied().collect(): the set difference'),
+    ('R27', r'\b(\w+)\.intersection\((&?\w+)\)\.count\(\)', r'vx_inter_count(&\1, \2)', 'HashSet::intersection(..).count(): size of the intersection'),
+    ('R27', r'\b(\w+)\.difference\((&?\w+)\)\.count\(\)', r'vx_diff_count(&\1, \2)', 'HashSet::difference(..).count(): size of the difference'),
+    ('R27', r'\b(\w+)\.iter\(\)\.position\(\|it\| it == &(\w+)\)', r'vx_position_set(&\1, &\2)', 'iter().position(|it| it == &y): index of the first element equal to y'),
+    ('R27', r'\b(\w+)\.iter\(\)\.filter\(\|&it\| !it\.is_empty\(\)\)\.collect_vec\(\)', r'vx_nonempty_refs(&\1)', 'iter().filter(|&it| !it.is_empty()).collect_vec(): references to the non-empty elements, in order'),
+    ('R27', r'\b(w)\.contains\(&(\w+)\)', r'vx_contains_set(&\1, &\2)', 'Vec<HashSet<_>>::contains: some element is equal (as a set)'),
+]
+
+def desugar_for_patterns(text, log, where):
+    """R28: `for` loops whose pattern or iterator Verus does not take, rewritten to the same traversal:
+         `for (I, X) in E.iter().enumerate().skip(S) {`  =>  `for I in S..E.len() {` + `let X = &E[I];`
+         `for (A, B, ..) in E {`                           =>  `for vx_tK in E {` + `let (A, B, ..) = vx_tK;`
+         `for &X in E {`                                   =>  `for vx_rK in E.iter() {` + `let X = *vx_rK;`"""
+    n = [0]
+    def skip(m):
+        n[0] += 1; ind = m.group(1)
+        return '%sfor %s in %s..%s.len() {\n%s    let %s = &%s[%s];' % (ind, m.group(2), m.group(5), m.group(4), ind, m.group(3), m.group(4), m.group(2))
+    text = re.sub(r'(?m)^([ \t]*)for \((\w+), (\w+)\) in (\w+)\.iter\(\)\.enumerate\(\)\.skip\((\w+)\) \{$', skip, text)
+    def tup(m):
+        n[0] += 1; ind = m.group(1)
+        return '%sfor vx_t%d in %s {\n%s    let (%s) = vx_t%d;' % (ind, n[0], m.group(3), ind, m.group(2), n[0])
+    text = re.sub(r'(?m)^([ \t]*)for \(([\w, ]+)\) in (\w+) \{$', tup, text)
+    def deref(m):
+        n[0] += 1; ind = m.group(1)
+        return '%sfor vx_r%d in %s.iter() {\n%s    let %s = *vx_r%d;' % (ind, n[0], m.group(3), ind, m.group(2), n[0])
+    text = re.sub(r'(?m)^([ \t]*)for &(\w+) in (\w+) \{$', deref, text)
+    if n[0]: log.add('R28', where, '%d `for` loop pattern(s)' % n[0], 'index / tuple / deref binding moved into the loop body')
+    return text
+
+def annotate_let(text, log, where, name, ty):
+    """R26: `let mut NAME = vec![];` gets the element type rustc infers from later statements written out (ghost code in loop invariants precedes
+    the statement that fixes it); rustc checks the annotation."""
+    new = re.sub(r'\blet mut %s = vec!\[\];' % re.escape(name), 'let mut %s: %s = vec![];' % (name, ty), text)
+    if new != text: log.add('R26', where, 'let mut %s = vec![];' % name, 'let mut %s: %s = vec![];' % (name, ty))
+    return new
+
+def hoist_call_argument(text, log, where, call, name):
+    """R29: `CALL(ARG);` => `let NAME = ARG; CALL(NAME);` (ARG is the only argument; evaluation order unchanged) so that ghost code can name the value."""
+    i = L.find_code(text, call + '(')
+    if i < 0: return text
+    po = i + len(call)
+    pc = L.match_close(text, po)
+    if not text[pc + 1:].startswith(';'): return text
+    ls = text.rfind('\n', 0, i) + 1
+    ind = text[ls:i]
+    arg = text[po + 1:pc]
+    log.add('R29', where, '%s(%s);' % (call, arg[:40]), 'let %s = ..; %s(%s);' % (name, call, name))
+    return text[:ls] + '%slet %s = %s;\n%s%s(%s);' % (ind, name, arg, ind, call, name) + text[pc + 2:]
